@@ -164,12 +164,23 @@ func HarnessC09NewSpan() {
 		ssp.OnEnd(ro)
 		queued := bsp.enqueueDrop(context.Background(), ro)
 		vndAssert(queued == sc.IsSampled(), "batch-processor-queues-iff-sampled")
+		// the blocking mode's enqueue (WithBlocking) obeys the same rule
+		bspB := &batchSpanProcessor{queue: make(chan ReadOnlySpan, 1)}
+		queuedB := bspB.enqueueBlockOnQueueFull(context.Background(), ro)
+		vndAssert(queuedB == sc.IsSampled() && len(bspB.queue) == c09Len(sc.IsSampled()), "blocking-batch-processor-queues-iff-sampled")
 	}
 	wantExp := 0
 	if smp.decision == RecordAndSample {
 		wantExp = 1
 	}
 	vndAssert(exp.n == wantExp, "simple-processor-exports-iff-sampled")
+}
+
+func c09Len(b bool) int {
+	if b {
+		return 1
+	}
+	return 0
 }
 
 type c09Exporter struct{ n int }
